@@ -6,8 +6,8 @@
            on a class whose wrapped property is an embedded object of a reserved class id served by the
            strict recursive constructor (so the whole theory of Proofs/C01Object.v applies to it).   *)
 From Coq Require Import NArith ZArith List String Bool Lia.
-From V Require Import Base.UString Base.Json Model.SchemaTypes Model.PyBase Model.Schema.
 From V Require Import Model.Calendar Model.Timestamp Proofs.TimestampFacts Proofs.StrptimeFacts Proofs.C15Proofs.
+From V Require Import Base.UString Base.Json Model.SchemaTypes Model.PyBase Model.Schema.
 From V Require Import Proofs.C01Basics Proofs.C01Kinds Proofs.C01KindsAll Proofs.C01Sort Proofs.C01Object.
 Import ListNotations.
 
@@ -38,7 +38,403 @@ Qed.
 Lemma milli_frac_nonempty : forall c us, frac_digits Timestamp.PMilli c us <> [].
 Proof.
   intros c us. unfold frac_digits. destruct c.
-  - pose proof (digitsn_length 6 us) as L. destruct (digitsn 6 us) as [| a [| b [| d r]]]; cbn [length] in L; try lia.
+  - pose proof (digitsn_length 6 us) as L. destruct (digitsn 6 us) as [| a r]; [discriminate L |].
     cbn [firstn]. discriminate.
-  - unfold ljust3. destruct (rstrip0 (digitsn 6 us)) as [| a [| b [| d r]]]; cbn; discriminate.
+  - unfold ljust3. destruct (rstrip0 (digitsn 6 us)) as [| a r]; cbn; discriminate.
 Qed.
+
+(* a postcondition on every result of a regex fragment: it holds if it holds of whatever the continuation returns *)
+Section Post.
+  Variable A : Type.
+  Variable Q : A -> Prop.
+  Definition kpost (k : Timestamp.kont A) : Prop := forall v s r, k v s = Some r -> Q r.
+  Definition spost (k : ustring -> option A) : Prop := forall s r, k s = Some r -> Q r.
+
+  Lemma one_post : forall cls k, kpost k -> spost (Timestamp.one A cls k).
+  Proof. intros cls k Hk s r H. unfold Timestamp.one in H. destruct s as [| c s']; try discriminate. destruct (cls c); try discriminate. eauto. Qed.
+
+  Lemma two_post : forall c1 c2 k, kpost k -> spost (Timestamp.two A c1 c2 k).
+  Proof.
+    intros c1 c2 k Hk. unfold Timestamp.two. apply one_post. intros a s r H. revert H. apply one_post. intros b s' r' H'. eauto.
+  Qed.
+
+  Lemma orelse_post : forall a b, spost a -> spost b -> spost (Timestamp.orelse A a b).
+  Proof. intros a b Ha Hb s r H. unfold Timestamp.orelse in H. destruct (a s) eqn:E; [inversion H; subst; eauto | eauto]. Qed.
+
+  Lemma space_then_post : forall cls k, kpost k -> spost (Timestamp.space_then A cls k).
+  Proof.
+    intros cls k Hk s r H. unfold Timestamp.space_then in H. destruct s as [| c s']; try discriminate.
+    destruct c as [| p]; try discriminate. do 6 (destruct p; try discriminate). revert H. apply one_post. exact Hk.
+  Qed.
+
+  Lemma lit_post : forall c c' k, spost k -> spost (Timestamp.lit A c c' k).
+  Proof.
+    intros c c' k Hk s r H. unfold Timestamp.lit in H. destruct s as [| x s']; try discriminate.
+    destruct ((x =? c)%N || (x =? c')%N); try discriminate. eauto.
+  Qed.
+
+  Lemma re_Y_post : forall k, kpost k -> spost (Timestamp.re_Y A k).
+  Proof.
+    intros k Hk. unfold Timestamp.re_Y. apply one_post. intros a s r H. revert H. apply one_post. intros b s1 r1 H1. revert H1.
+    apply one_post. intros c s2 r2 H2. revert H2. apply one_post. intros d s3 r3 H3. eauto.
+  Qed.
+  Lemma re_m_post : forall k, kpost k -> spost (Timestamp.re_m A k).
+  Proof. intros k Hk. unfold Timestamp.re_m. repeat apply orelse_post; try apply two_post; try apply one_post; exact Hk. Qed.
+  Lemma re_d_post : forall k, kpost k -> spost (Timestamp.re_d A k).
+  Proof. intros k Hk. unfold Timestamp.re_d. repeat apply orelse_post; try apply two_post; try apply one_post; try apply space_then_post; exact Hk. Qed.
+  Lemma re_H_post : forall k, kpost k -> spost (Timestamp.re_H A k).
+  Proof. intros k Hk. unfold Timestamp.re_H. repeat apply orelse_post; try apply two_post; try apply one_post; exact Hk. Qed.
+  Lemma re_M_post : forall k, kpost k -> spost (Timestamp.re_M A k).
+  Proof. intros k Hk. unfold Timestamp.re_M. repeat apply orelse_post; try apply two_post; try apply one_post; exact Hk. Qed.
+  Lemma re_S_post : forall k, kpost k -> spost (Timestamp.re_S A k).
+  Proof. intros k Hk. unfold Timestamp.re_S. repeat apply orelse_post; try apply two_post; try apply one_post; exact Hk. Qed.
+End Post.
+
+(* without a "." the pattern without the fraction is used: the microsecond field is 0 *)
+Lemma regex_nofrac_us : forall s y m d hh mm ss us rest,
+  Timestamp.regex_match false s = Some (y, m, d, hh, mm, ss, us, rest) -> us = 0%Z.
+Proof.
+  intros s y m d hh mm ss us rest H.
+  set (Q := fun r : Timestamp.ptuple => match r with (_, _, _, _, _, _, us0, _) => us0 = 0%Z end).
+  assert (HQ : Q (y, m, d, hh, mm, ss, us, rest)); [| exact HQ].
+  revert H. generalize (y, m, d, hh, mm, ss, us, rest). revert s. change (spost Timestamp.ptuple Q (Timestamp.regex_match false)).
+  unfold Timestamp.regex_match.
+  apply re_Y_post. intros y0 s0 r0 H0. revert H0. apply lit_post.
+  apply re_m_post. intros m0 s1 r1 H1. revert H1. apply lit_post.
+  apply re_d_post. intros d0 s2 r2 H2. revert H2. apply lit_post.
+  apply re_H_post. intros h0 s3 r3 H3. revert H3. apply lit_post.
+  apply re_M_post. intros i0 s4 r4 H4. revert H4. apply lit_post.
+  apply re_S_post. intros x0 s5 r5 H5. revert H5. apply lit_post.
+  intros s6 r6 H6. inversion H6. reflexivity.
+Qed.
+
+Lemma fus_whole_second : forall t, (t mod us_per_sec = 0)%Z -> f_us (fields_of t) = 0%Z.
+Proof.
+  intros t H. unfold fields_of. destruct (civil_of_days (t / us_per_day)) as [[y m] d]. cbn [f_us].
+  rewrite <- Znumtheory.Zmod_div_mod; [exact H | reflexivity | reflexivity |].
+  exists 86400%Z. reflexivity.
+Qed.
+
+Lemma ts_clean_milli_dotted : forall s us txt, ts_clean true SchemaTypes.PMilli SchemaTypes.CExact s = Ok (us, txt) -> dotted txt = true.
+Proof.
+  intros s us txt H. unfold ts_clean in H. destruct (parse_strptime s); try discriminate. inversion H; subst.
+  rewrite dotted_has_dot, format_has_dot. cbn [ts_prec ts_constr].
+  pose proof (milli_frac_nonempty Timestamp.CExact (f_us (fields_of (stored_trunc Timestamp.PMilli Timestamp.CExact z)))) as N.
+  destruct (frac_digits _ _ _); [contradiction | reflexivity].
+Qed.
+
+Lemma ts_clean_now_milli_dotted : forall now us txt, ts_clean_now true SchemaTypes.PMilli SchemaTypes.CExact now = Ok (us, txt) -> dotted txt = true.
+Proof.
+  intros now us txt H. unfold ts_clean_now in H. destruct (in_range now); try discriminate. inversion H; subst.
+  rewrite dotted_has_dot, format_has_dot. cbn [ts_prec ts_constr].
+  pose proof (milli_frac_nonempty Timestamp.CExact (f_us (fields_of (stored_trunc Timestamp.PMilli Timestamp.CExact now)))) as N.
+  destruct (frac_digits _ _ _); [contradiction | reflexivity].
+Qed.
+
+(* a text without "." read at a precision other than milliseconds is written without "." *)
+Lemma ts_clean_undotted : forall p c s us txt,
+  ts_clean true p c s = Ok (us, txt) -> dotted s = false -> p <> SchemaTypes.PMilli -> dotted txt = false.
+Proof.
+  intros p c s us txt H Hd Hp. unfold ts_clean in H. destruct (parse_strptime s) as [t |] eqn:E; try discriminate.
+  inversion H; subst. rewrite dotted_has_dot in *. rewrite format_has_dot.
+  unfold parse_strptime in E. rewrite Hd in E.
+  destruct (regex_match false s) as [[[[[[[[y m] d] hh] mm] ss] us0] rest] |] eqn:R; try discriminate.
+  pose proof (regex_nofrac_us _ _ _ _ _ _ _ _ _ R) as U. subst us0.
+  destruct rest; try discriminate. destruct (valid_fields y m d hh mm ss 0); try discriminate. inversion E; subst t.
+  assert (T : (instant_of y m d hh mm ss 0 mod us_per_sec = 0)%Z).
+  { unfold instant_of. rewrite Z.add_0_r. apply Z.mod_mul. discriminate. }
+  assert (F : f_us (fields_of (stored_trunc (ts_prec p) (ts_constr c) (instant_of y m d hh mm ss 0))) = 0%Z).
+  { apply fus_whole_second. destruct p, c; cbn [ts_prec ts_constr stored_trunc]; try exact T; try contradiction.
+    - change 1000000%Z with us_per_sec. rewrite T. rewrite Z.sub_0_r. exact T. }
+  rewrite F. destruct p, c; try contradiction; reflexivity.
+Qed.
+
+(* ------------------------------------------------------------------ Part 2: the wrapped property *)
+Definition MARK : ustring := u "<wrapped marking>".
+
+Definition wrap_slot (d : ustring) (s : slot) : slot :=
+  if ustr_eqb (sname s) d then {| sname := sname s; skind := KEmbedded MARK; sreq := sreq s; sdef := sdef s |} else s.
+
+Definition wrap_cls (d : ustring) (c : cls) : cls :=
+  {| cid := cid c; cver := cver c; ctype := ctype c; cfamily := cfamily c; cslots := map (wrap_slot d) (cslots c);
+     ccons := ccons c; cinit := cinit c; cidcontrib := cidcontrib c; cserialize_tlp := cserialize_tlp c |}.
+
+Lemma wrap_sname : forall d s, sname (wrap_slot d s) = sname s.
+Proof. intros d s. unfold wrap_slot. destruct (ustr_eqb (sname s) d); reflexivity. Qed.
+Lemma wrap_sreq : forall d s, sreq (wrap_slot d s) = sreq s.
+Proof. intros d s. unfold wrap_slot. destruct (ustr_eqb (sname s) d); reflexivity. Qed.
+Lemma wrap_sdef : forall d s, sdef (wrap_slot d s) = sdef s.
+Proof. intros d s. unfold wrap_slot. destruct (ustr_eqb (sname s) d); reflexivity. Qed.
+
+Lemma wrap_PN : forall d c, PN (wrap_cls d c) = PN c.
+Proof.
+  intros d c. unfold PN, wrap_cls. cbn [cslots]. rewrite map_map. apply map_ext. intros s. apply wrap_sname.
+Qed.
+
+Lemma wrap_slot_of : forall d c n, slot_of (wrap_cls d c) n = option_map (wrap_slot d) (slot_of c n).
+Proof.
+  intros d c n. unfold slot_of, wrap_cls. cbn [cslots]. induction (cslots c) as [| s r IH]; cbn [map find option_map]; [reflexivity |].
+  rewrite wrap_sname. destruct (ustr_eqb (sname s) n); [reflexivity | exact IH].
+Qed.
+
+Lemma wrap_defaulted : forall d c S, defaulted_names (wrap_cls d c) S = defaulted_names c S.
+Proof.
+  intros d c S. unfold defaulted_names, wrap_cls. cbn [cslots].
+  induction (cslots c) as [| s r IH]; cbn [map filter]; [reflexivity |].
+  rewrite wrap_sreq, wrap_sdef, wrap_sname.
+  match goal with |- context [if ?b then _ else _] => destruct b end; cbn [map]; [rewrite wrap_sname, IH | rewrite IH]; reflexivity.
+Qed.
+
+Lemma wrap_required : forall d c (S : list (ustring * pval)),
+  existsb (fun s => sreq s && negb (amem (sname s) S)) (cslots (wrap_cls d c)) =
+  existsb (fun s => sreq s && negb (amem (sname s) S)) (cslots c).
+Proof.
+  intros d c S. unfold wrap_cls. cbn [cslots]. induction (cslots c) as [| s r IH]; cbn [map existsb]; [reflexivity |].
+  rewrite wrap_sreq, wrap_sname, IH. reflexivity.
+Qed.
+
+Lemma wrap_default_checked : forall d c, default_checked (wrap_cls d c) = default_checked c.
+Proof.
+  intros d c. unfold default_checked. cbn [cfamily wrap_cls cslots]. rewrite map_map.
+  f_equal. apply map_ext. intros s. apply wrap_sname.
+Qed.
+
+Lemma constr_all_ext : forall (g h : constr -> result unit) l, (forall x, g x = h x) -> constr_all g l = constr_all h l.
+Proof. intros g h l E. induction l as [| x r IH]; cbn [constr_all]; [reflexivity |]. rewrite E, IH. reflexivity. Qed.
+
+Lemma wrap_eval_constr : forall vr po d c fuel inner k,
+  eval_constr vr po fuel (wrap_cls d c) inner k = eval_constr vr po fuel c inner k.
+Proof.
+  intros vr po d c. induction fuel as [| f IH]; intros inner k; [reflexivity |].
+  cbn [eval_constr]. destruct k; try reflexivity; try (rewrite wrap_default_checked; reflexivity).
+  match goal with |- context [eval_ccond ?q ?i] => destruct (eval_ccond q i) as [[] | |] end; cbn [bind]; try reflexivity.
+  apply constr_all_ext. intros x. apply IH.
+Qed.
+
+(* kinds whose cleaning does not call the recursive constructor for the reserved class id *)
+Fixpoint kind_avoids (k : pkind) : bool :=
+  match k with
+  | KEmbedded cid0 | KListOf cid0 => negb (ustr_eqb cid0 MARK)
+  | KList k' => kind_avoids k'
+  | KObservable _ | KStixObject _ | KExtensions _ => false
+  | _ => true
+  end.
+
+Lemma clean_items_ext : forall (f g : jvalue -> result (pval * bool)) l, (forall x, f x = g x) -> clean_items f l = clean_items g l.
+Proof. intros f g l E. induction l as [| x r IH]; cbn [clean_items]; [reflexivity |]. rewrite E, IH. reflexivity. Qed.
+
+Section Ext.
+  Variable vr : variant.
+  Variable w : world.
+  Variable rc rc2 : ustring -> bool -> bool -> list (ustring * jvalue) -> result pval.
+  Variable rp : bool -> bool -> list (ustring * jvalue) -> result pval.
+  Variable ro : ver -> list (ustring * ustring) -> bool -> list (ustring * jvalue) -> result pval.
+  Hypothesis Hagree : forall cid0 a i x, ustr_eqb cid0 MARK = false -> rc2 cid0 a i x = rc cid0 a i x.
+
+  Lemma listof_items_ext : forall cid0 a i l, ustr_eqb cid0 MARK = false ->
+    listof_items rc2 cid0 a i l = listof_items rc cid0 a i l.
+  Proof.
+    intros cid0 a i l Hc. induction l as [| x r IH]; cbn [listof_items]; [reflexivity |].
+    destruct x; try reflexivity. rewrite Hagree by exact Hc. rewrite IH. reflexivity.
+  Qed.
+
+  Lemma clean_kind_ext : forall k, kind_avoids k = true ->
+    forall a i jv, clean_kind vr w rc2 rp ro k a i jv = clean_kind vr w rc rp ro k a i jv.
+  Proof.
+    induction k; intros Hk a i jv; cbn [kind_avoids] in Hk; try discriminate; cbn [clean_kind]; try reflexivity.
+    - apply negb_true_iff in Hk. destruct jv; try reflexivity. rewrite Hagree by exact Hk. reflexivity.
+    - destruct (list_items jv) as [l | |]; cbn [bind]; try reflexivity. rewrite (clean_items_ext _ _ l (fun x => IHk Hk a i x)). reflexivity.
+    - apply negb_true_iff in Hk. destruct (list_items jv) as [l | |]; cbn [bind]; try reflexivity. rewrite listof_items_ext by exact Hk. reflexivity.
+  Qed.
+End Ext.
+
+Lemma alookup_aremove_other : forall (A : Type) n d (K : list (ustring * A)), n <> d -> alookup n (aremove d K) = alookup n K.
+Proof.
+  intros A n d K Hn. induction K as [| [k x] r IH]; cbn [aremove alookup]; [reflexivity |].
+  destruct (ustr_eqb d k) eqn:Ed.
+  - apply ustr_eqb_eq in Ed. subst k. destruct (ustr_eqb n d) eqn:En; [apply ustr_eqb_eq in En; contradiction | reflexivity].
+  - cbn [alookup]. rewrite IH. reflexivity.
+Qed.
+
+Lemma filter_akeys_aremove : forall (A : Type) (f : ustring -> bool) d (K : list (ustring * A)),
+  f d = false -> filter f (akeys (aremove d K)) = filter f (akeys K).
+Proof.
+  intros A f d K Hf. unfold akeys. induction K as [| [k x] r IH]; cbn [aremove map filter fst]; [reflexivity |].
+  destruct (ustr_eqb d k) eqn:Ed.
+  - apply ustr_eqb_eq in Ed. subst k. rewrite Hf. reflexivity.
+  - cbn [map filter fst]. rewrite IH. reflexivity.
+Qed.
+
+Section Wrap.
+  Variable vr : variant.
+  Variable ev : env.
+  Variable w : world.
+  Variable pattern_ok : ver -> ustring -> bool.
+  Variable selectors_ok : list (ustring * pval) -> pval -> result bool.
+  Variable rc rc2 : ustring -> bool -> bool -> list (ustring * jvalue) -> result pval.
+  Variable rp : bool -> bool -> list (ustring * jvalue) -> result pval.
+  Variable ro : ver -> list (ustring * ustring) -> bool -> list (ustring * jvalue) -> result pval.
+  Hypothesis Hagree : forall cid0 a i x, ustr_eqb cid0 MARK = false -> rc2 cid0 a i x = rc cid0 a i x.
+
+  Variable c : cls.
+  Variable a interop : bool.
+  Variable vrefs : option (list (ustring * ustring)).
+  Variable d : ustring.
+  Variable m : pval.
+  Variable dd K0 : list (ustring * jvalue).
+  Variable sd : slot.
+  Hypothesis Hd : slot_of c d = Some sd.
+  Hypothesis Hdnone : sdef sd = DNone.
+  Hypothesis HK0 : alookup d K0 = Some (JObj dd).
+  Hypothesis Hres : reserved_kw dd = Ok tt.
+  Hypothesis Hm : rc2 MARK a false dd = Ok m.
+  Hypothesis Hhc : pval_has_custom m = false.
+  Hypothesis Hobj : match m with PJ _ => False | _ => True end.
+  Hypothesis Hext : alookup ext_key K0 = None.
+  Hypothesis Hav : forall sl, In sl (cslots c) -> sname sl <> d ->
+    kind_avoids (skind sl) = true \/ (sname sl = ext_key /\ sdef sl = DNone).
+
+  Notation LHS := (assign_loop vr ev w rc rp ro c a interop vrefs (aremove d K0) [] [(d, m)]).
+  Notation RSTEP := (step vr ev w rc2 rp ro (wrap_cls d c) a interop vrefs K0).
+  Notation RHS := (assign_loop vr ev w rc2 rp ro (wrap_cls d c) a interop vrefs K0 [] []).
+
+  Lemma lhs_cons : forall n rest s hc, amem n s = false ->
+    LHS (n :: rest) s hc = do r <- RSTEP n s hc; LHS rest (fst r) (snd r).
+  Proof.
+    intros n rest s hc Hf. cbn [assign_loop]. unfold step. rewrite wrap_slot_of.
+    destruct (ustr_eqb n d) eqn:End.
+    - (* the wrapped property *)
+      apply ustr_eqb_eq in End. subst n. rewrite Hd. cbn [option_map].
+      unfold assign_raw at 1. cbn [alookup]. rewrite ustr_eqb_refl.
+      rewrite assign_raw_spec. rewrite HK0. cbn [nullish].
+      destruct (slot_of_In c d sd Hd) as [_ Esd].
+      (* left: the instance is kept *)
+      assert (L : check_property vr ev w rc rp ro c sd a interop vrefs (aset d m s) = Ok (aset d m s, false)).
+      { unfold check_property, default_value. rewrite Esd. rewrite alookup_aset_same. cbn [bind fst snd].
+        unfold clean_present. rewrite Esd. rewrite alookup_aset_same.
+        destruct m; try contradiction; rewrite Hhc; rewrite andb_false_r; destruct (vr_marking_flag vr); reflexivity. }
+      (* right: the dictionary is constructed by the strict recursive constructor *)
+      assert (R : check_property vr ev w rc2 rp ro (wrap_cls d c) (wrap_slot d sd) a interop vrefs (aset d (PJ (JObj dd)) s)
+                  = Ok (aset d m s, false)).
+      { assert (Ew : wrap_slot d sd = {| sname := d; skind := KEmbedded MARK; sreq := sreq sd; sdef := sdef sd |}).
+        { unfold wrap_slot. rewrite Esd, ustr_eqb_refl. reflexivity. }
+        rewrite Ew.
+        unfold check_property, default_value. cbn [sname]. rewrite alookup_aset_same. cbn [bind fst snd].
+        unfold clean_present. cbn [sname skind]. rewrite alookup_aset_same.
+        cbn [clean_kind]. rewrite Hres. cbn [bind]. rewrite Hm.
+        cbn [bind]. rewrite Hhc. rewrite andb_false_r.
+        assert (Hr : refs_ok (wrap_cls d c) {| sname := d; skind := KEmbedded MARK; sreq := sreq sd; sdef := sdef sd |} vrefs m = Ok tt).
+        { unfold refs_ok. cbn [skind].
+          destruct (cfamily (wrap_cls d c)); try reflexivity. destruct (cver (wrap_cls d c)); try reflexivity.
+          destruct vrefs; reflexivity. }
+        rewrite Hr. cbn [bind]. rewrite aset_aset. reflexivity. }
+      rewrite L, R. reflexivity.
+    - (* every other name *)
+      assert (Hne : n <> d) by (intros E; subst; rewrite ustr_eqb_refl in End; discriminate).
+      assert (S1 : assign_raw (aremove d K0) [] [(d, m)] n s = assign_raw K0 [] [] n s).
+      { unfold assign_raw. cbn [alookup]. rewrite End. rewrite alookup_aremove_other by exact Hne. reflexivity. }
+      rewrite S1.
+      destruct (slot_of c n) as [sl |] eqn:Esl; cbn [option_map]; [| reflexivity].
+      destruct (slot_of_In c n sl Esl) as [Hin En].
+      assert (Hw : wrap_slot d sl = sl).
+      { unfold wrap_slot. rewrite En, End. reflexivity. }
+      rewrite Hw.
+      assert (E : check_property vr ev w rc rp ro c sl a interop vrefs (assign_raw K0 [] [] n s) =
+                  check_property vr ev w rc2 rp ro (wrap_cls d c) sl a interop vrefs (assign_raw K0 [] [] n s)).
+      { destruct (Hav sl Hin) as [Hk | [Hn Hdf]]; [congruence | |].
+        - unfold check_property. destruct (default_value vr ev sl (assign_raw K0 [] [] n s)) as [[s2 isnow] | |]; cbn [bind fst snd]; try reflexivity.
+          unfold clean_present. destruct (alookup (sname sl) s2) as [raw |]; try reflexivity.
+          destruct isnow; try reflexivity. destruct raw; try reflexivity.
+          rewrite (clean_kind_ext vr w rc rc2 rp ro Hagree (skind sl) Hk). reflexivity.
+        - (* the extensions property: nothing given, no default, nothing cleaned *)
+          assert (Hs1 : assign_raw K0 [] [] n s = s).
+          { rewrite assign_raw_spec. rewrite <- En, Hn, Hext. reflexivity. }
+          rewrite Hs1. apply amem_alookup_none in Hf.
+          unfold check_property, default_value. rewrite En, Hf, Hdf. cbn [bind fst snd].
+          unfold clean_present. rewrite En, Hf. reflexivity. }
+      rewrite E. unfold bind. destruct (check_property vr ev w rc2 rp ro (wrap_cls d c) sl a interop vrefs (assign_raw K0 [] [] n s)) as [[x y] | |];
+        reflexivity.
+  Qed.
+
+  Lemma loop_wrap : forall l s hc, NoDup l -> (forall n, In n l -> amem n s = false) -> LHS l s hc = RHS l s hc.
+  Proof.
+    induction l as [| n rest IH]; intros s hc ND Hf; [reflexivity |].
+    rewrite lhs_cons by (apply Hf; left; reflexivity). rewrite loop_cons.
+    destruct (RSTEP n s hc) as [[s1 h1] | |] eqn:Es; cbn [bind fst snd]; try reflexivity.
+    inversion ND; subst. apply IH; auto.
+    intros k Hk. unfold amem. rewrite (sos_frame _ _ _ k (step_shape vr ev w rc2 rp ro (wrap_cls d c) a interop vrefs _ _ _ _ _ _ Es)).
+    - apply Hf. right. exact Hk.
+    - intros E2. subst. contradiction.
+  Qed.
+
+  (* cg_plain with a pre-wrapped value *)
+  Lemma cg_plain_pre : forall rcx cx fuel kw pre,
+    alookup cp_key kw = None -> alookup ext_key kw = None ->
+    construct_generic vr ev w pattern_ok selectors_ok rcx rp ro fuel cx a interop kw pre vrefs =
+    let E := filter (notPN cx) (akeys kw) in
+    match E, a with
+    | _ :: _, false => Err EExtra
+    | _, _ =>
+      let AC := udedup (filter (notPN cx) (E ++ [])) in
+      if (match cver cx with V21 => negb (forallb re_prefix21 AC) | V20 => false end) then Err EInvalidValue else
+      do r <- assign_loop vr ev w rcx rp ro cx a interop vrefs kw [] pre (PN cx ++ ([] ++ usort AC)) [] (flag0 vr AC);
+      cg_tail vr pattern_ok selectors_ok cx a fuel AC r
+    end.
+  Proof.
+    intros rcx cx fuel kw pre Hcp Hx. unfold construct_generic.
+    change (u "custom_properties") with cp_key. change (u "extensions") with ext_key.
+    rewrite Hcp. rewrite (aremove_absent _ cp_key kw) by (apply amem_alookup_none; exact Hcp).
+    rewrite Hx. cbn [bind]. rewrite andb_false_r.
+    fold (PN cx). fold (notPN cx). cbn [akeys map app].
+    destruct (filter (notPN cx) (akeys kw)) as [| e0 E0]; reflexivity.
+  Qed.
+
+  Lemma wrap_cg_tail : forall fuel AC r,
+    cg_tail vr pattern_ok selectors_ok (wrap_cls d c) a fuel AC r = cg_tail vr pattern_ok selectors_ok c a fuel AC r.
+  Proof.
+    intros fuel AC [S hc0]. unfold cg_tail. rewrite wrap_required, wrap_defaulted. cbn [ccons cfamily cid wrap_cls].
+    rewrite (constr_all_ext _ _ _ (wrap_eval_constr vr pattern_ok d c fuel S)). reflexivity.
+  Qed.
+
+  Hypothesis Hnodup : NoDup (map sname (cslots c)).
+  Hypothesis Hcp : alookup cp_key K0 = None.
+
+  (* the constructor with the pre-wrapped value = the generic constructor of the wrapping class on all the arguments *)
+  Theorem cg_wrap : forall fuel,
+    construct_generic vr ev w pattern_ok selectors_ok rc rp ro fuel c a interop (aremove d K0) [(d, m)] vrefs =
+    construct_generic vr ev w pattern_ok selectors_ok rc2 rp ro fuel (wrap_cls d c) a interop K0 [] vrefs.
+  Proof.
+    intros fuel.
+    destruct (slot_of_In c d sd Hd) as [Hsdin Esd].
+    assert (Hdpn : notPN c d = false).
+    { unfold notPN. apply negb_false_iff. apply mem_ustr_In. unfold PN. rewrite <- Esd. apply in_map. exact Hsdin. }
+    assert (Hne1 : cp_key <> d).
+    { intros E. rewrite <- E in HK0. rewrite Hcp in HK0. discriminate. }
+    assert (Hne2 : ext_key <> d).
+    { intros E. rewrite <- E in HK0. rewrite Hext in HK0. discriminate. }
+    rewrite (cg_plain_pre rc c fuel (aremove d K0) [(d, m)])
+      by (rewrite alookup_aremove_other; assumption).
+    rewrite (cg_plain vr ev w pattern_ok selectors_ok rc2 rp ro (wrap_cls d c) a interop vrefs fuel K0 Hcp Hext).
+    cbv zeta. unfold notPN. rewrite wrap_PN. fold (notPN c).
+    rewrite (filter_akeys_aremove _ (notPN c) d K0 Hdpn).
+    set (E := filter (notPN c) (akeys K0)).
+    set (AC := udedup (filter (notPN c) (E ++ []))).
+    cbn [cver wrap_cls].
+    assert (HX : (if (match cver c with V21 => negb (forallb re_prefix21 AC) | V20 => false end) then Err EInvalidValue else
+                  do r <- assign_loop vr ev w rc rp ro c a interop vrefs (aremove d K0) [] [(d, m)] (PN c ++ ([] ++ usort AC)) [] (flag0 vr AC);
+                  cg_tail vr pattern_ok selectors_ok c a fuel AC r) =
+                 (if (match cver c with V21 => negb (forallb re_prefix21 AC) | V20 => false end) then Err EInvalidValue else
+                  do r <- assign_loop vr ev w rc2 rp ro (wrap_cls d c) a interop vrefs K0 [] [] (PN c ++ ([] ++ usort AC)) [] (flag0 vr AC);
+                  cg_tail vr pattern_ok selectors_ok (wrap_cls d c) a fuel AC r)).
+    { destruct (match cver c with V21 => negb (forallb re_prefix21 AC) | V20 => false end); [reflexivity |].
+      rewrite loop_wrap.
+      + unfold bind. destruct (assign_loop vr ev w rc2 rp ro (wrap_cls d c) a interop vrefs K0 [] [] (PN c ++ [] ++ usort AC) [] (flag0 vr AC));
+          try reflexivity. rewrite wrap_cg_tail. reflexivity.
+      + cbn [app]. apply NoDup_app_disj; [exact Hnodup | apply NoDup_usort; apply NoDup_udedup |].
+        intros x Hx Hx2. apply (proj1 (In_usort _ _)) in Hx2. unfold AC in Hx2. apply (proj1 (In_udedup _ _)) in Hx2.
+        apply filter_In in Hx2. destruct Hx2 as [_ Hn]. unfold notPN in Hn. apply negb_true_iff in Hn.
+        apply (proj2 (mem_ustr_In x (PN c))) in Hx. congruence.
+      + intros; reflexivity. }
+    rewrite HX. reflexivity.
+  Qed.
+End Wrap.
